@@ -9,9 +9,9 @@ from hypothesis import strategies as st
 
 from .. import kioapi as K
 from ..engine import Ctx, Report
-from ..refcodec import to_entity
-from ..strategies import PYTHON_CANONICAL
-from ..treeprop import TreeSpec, run_tree_property
+from ..refcodec import RefEncodeError, from_entity, ref_encode, to_entity
+from ..strategies import Profile
+from ..treeprop import TreeSpec, note, run_tree_property
 
 ID = "C01"
 
@@ -42,10 +42,27 @@ def _rezone(x, minutes: int):
     return K.map_datetimes(x, fn)
 
 
+PROFILE = Profile("python_canonical+oversize", oversize_legacy=True)
+
+
 def check(cd, tree, extra):
     tail, tzmin = extra
     x = to_entity(cd, tree)
     x_in = _rezone(x, tzmin)
+    try:
+        ref_encode(cd, from_entity(cd, x))
+        oversize = False
+    except RefEncodeError:
+        oversize = True  # a legacy (int16-prefixed) string longer than 32767 bytes: the format cannot express it
+    if oversize:
+        note("oversize_legacy_cases")
+        try:
+            b = K.encode(cd.cls, x_in)
+        except K.OutOfBoundValue:
+            return None
+        except Exception as e:
+            return (f"oversize-legacy-wrong-error:{K.exc_signature(e)}", f"{cd.path}: a 32768-byte legacy string raised {e!r}, documented is OutOfBoundValue")
+        return ("oversize-legacy-accepted", f"{cd.path}: a 32768-byte legacy string was encoded ({len(b)} bytes) instead of raising OutOfBoundValue")
     try:
         b = K.encode(cd.cls, x_in)
     except Exception as e:
@@ -90,11 +107,11 @@ SPEC = TreeSpec(
         "(boundary-biased ints, 0/1/126..32767-byte strings, multi-byte UTF-8, null/empty/one/many "
         "arrays, tagged default/non-default) re-expressed in a drawn UTC offset, encoded, followed by "
         "a drawn tail (none/1 byte/16 bytes/second copy) and decoded; oracle: decoded == original and "
-        "tell() == len(encoding). Non-trivial = instance has a null/empty/multi-item array, nested "
+        "tell() == len(encoding); a legacy string of 32768 bytes must make the encoder raise OutOfBoundValue. Non-trivial = instance has a null/empty/multi-item array, nested "
         "non-default tagged field, string >=126 bytes, multi-byte text or an integer at a limit, AND a "
         "non-empty tail; distinct by hash of (class, tree, tail)."
     ),
-    profile=PYTHON_CANONICAL,
+    profile=PROFILE,
     check=check,
     nontrivial=nontrivial,
     extra=_extra,
